@@ -18,6 +18,34 @@ use rand::Rng;
 use serde::{Deserialize, Serialize};
 use std::sync::{Arc, Mutex};
 
+/// storage format of the durable slot
+#[derive(Clone, Copy, Debug, PartialEq, Eq, Serialize, Deserialize)]
+pub enum Fmt {
+    /// SimStore tree (f64 by bit pattern; read behaviour seeded)
+    Tree,
+    /// serde_json compact text (float_roundtrip)
+    Json,
+    /// serde_json pretty-printed text
+    JsonPretty,
+    /// serde_json::Value tree (object members come back in sorted key order)
+    JsonValue,
+}
+
+impl Fmt {
+    pub fn pick(rng: &mut crate::util::SplitMix, image_finite: bool) -> Fmt {
+        if !image_finite {
+            // JSON cannot carry non-finite numbers: not a format "that preserves f64 exactly"
+            return Fmt::Tree;
+        }
+        match rng.below(6) {
+            0 => Fmt::Json,
+            1 => Fmt::JsonPretty,
+            2 => Fmt::JsonValue,
+            _ => Fmt::Tree,
+        }
+    }
+}
+
 #[derive(Clone, Debug, PartialEq, Serialize, Deserialize)]
 pub enum Op {
     SampleX { point: Vec<u64>, ed: EdgeData, st: Settings },
@@ -28,12 +56,15 @@ pub enum Op {
     /// clone the sampler in use and use the clone from now on
     CloneLocal,
     /// write the sampler in use to the durable slot
-    Persist { json: bool },
+    Persist { fmt: Fmt },
     /// drop the live sampler, restore from the durable slot (persisting first if
     /// the slot is empty), optionally publish the restored object to the others
-    Restart { json: bool, behaviour: ReadBehaviour, publish: bool },
+    Restart { fmt: Fmt, behaviour: ReadBehaviour, publish: bool },
     /// a SampleX whose scalar seam unwinds at its `at`-th event (cancellation)
     Aborted { point: Vec<u64>, ed: EdgeData, st: Settings, at: u64 },
+    /// a SampleRng in which the first user callback (scalar arithmetic, RNG draw or
+    /// logger write) at or after event `at` unwinds: a panicking RNG / logger
+    AbortedRng { seed: u64, kind: RngKind, ed: EdgeData, st: Settings, at: u64 },
     /// SimStore image of the sampler in use
     ImageCheck,
     /// the same operation `n` times in a row
@@ -54,6 +85,7 @@ impl Op {
             Op::Persist { .. } => "persist",
             Op::Restart { .. } => "restart",
             Op::Aborted { .. } => "aborted_sample",
+            Op::AbortedRng { .. } => "aborted_rng_sample",
             Op::ImageCheck => "image",
             Op::Repeat { .. } => "repeat",
             Op::Alt(o) => o.tag(),
@@ -94,6 +126,7 @@ pub struct Scenario {
 pub enum Durable {
     Tree(Tree),
     Json(String),
+    JsonValue(serde_json::Value),
 }
 
 /// shared environment of one run
@@ -143,11 +176,12 @@ fn current(env: &Env, cs: &ClientState, e: usize) -> Arc<dyn Sampler> {
     current2(env, cs, e).0
 }
 
-fn persist(s: &dyn Sampler, json: bool) -> Result<Durable, String> {
-    if json {
-        s.to_json().map(Durable::Json)
-    } else {
-        Ok(Durable::Tree(s.image()))
+fn persist(s: &dyn Sampler, fmt: Fmt) -> Result<Durable, String> {
+    match fmt {
+        Fmt::Tree => Ok(Durable::Tree(s.image())),
+        Fmt::Json => s.to_json().map(Durable::Json),
+        Fmt::JsonPretty => s.to_json_pretty().map(Durable::Json),
+        Fmt::JsonValue => s.to_json_value().map(Durable::JsonValue),
     }
 }
 
@@ -165,6 +199,7 @@ fn exec_on(envs: &[Arc<Env>], e: usize, cs: &mut ClientState, op: &Op, record_tr
     let env: &Env = &envs[e];
     let faults = match op {
         Op::Aborted { at, .. } => vec![Fault { at: *at, kind: FaultKind::Unwind }],
+        Op::AbortedRng { at, .. } => vec![Fault { at: *at, kind: FaultKind::UnwindAny }],
         _ => vec![],
     };
     if let Op::Repeat { op: inner, n } = op {
@@ -213,7 +248,7 @@ fn exec_on(envs: &[Arc<Env>], e: usize, cs: &mut ClientState, op: &Op, record_tr
             let s = current(env, cs, e);
             s.sample_x(point, ed, st)
         }
-        Op::SampleRng { seed, kind, ed, st } => {
+        Op::SampleRng { seed, kind, ed, st } | Op::AbortedRng { seed, kind, ed, st, .. } => {
             let s = current(env, cs, e);
             let mut rng = SimRng::new(*seed, *kind);
             let o = s.sample_rng(&mut rng, ed, st);
@@ -235,13 +270,14 @@ fn exec_on(envs: &[Arc<Env>], e: usize, cs: &mut ClientState, op: &Op, record_tr
             cs.local[e] = Some((Arc::from(s.clone_box()), r));
             Outcome::Unit
         }
-        Op::Persist { json } => {
+        Op::Persist { fmt } => {
             let s = current(env, cs, e);
-            match persist(&*s, *json) {
+            match persist(&*s, *fmt) {
                 Ok(d) => {
                     let h = match &d {
                         Durable::Tree(t) => t.digest(),
                         Durable::Json(j) => hash_str(j),
+                        Durable::JsonValue(v) => hash_str(&v.to_string()),
                     };
                     *env.disk.lock().unwrap() = Some(d);
                     Outcome::Image(h)
@@ -249,13 +285,13 @@ fn exec_on(envs: &[Arc<Env>], e: usize, cs: &mut ClientState, op: &Op, record_tr
                 Err(e) => Outcome::Err(e),
             }
         }
-        Op::Restart { json, behaviour, publish } => {
+        Op::Restart { fmt, behaviour, publish } => {
             let have = env.disk.lock().unwrap().clone();
             let dur = match have {
                 Some(d) => Ok(d),
                 None => {
                     let s = current(env, cs, e);
-                    persist(&*s, *json)
+                    persist(&*s, *fmt)
                 }
             };
             // the live object is gone: only the durable form survives
@@ -266,6 +302,7 @@ fn exec_on(envs: &[Arc<Env>], e: usize, cs: &mut ClientState, op: &Op, record_tr
                     let restored = match &d {
                         Durable::Tree(t) => sampler::restore_tree(env.spec.d, t, *behaviour),
                         Durable::Json(j) => sampler::restore_json(env.spec.d, j),
+                        Durable::JsonValue(v) => sampler::restore_json_value(env.spec.d, v),
                     };
                     match restored {
                         Err(e) => Outcome::Err(format!("restore failed: {}", e)),
@@ -729,7 +766,7 @@ pub fn run_scenario(sc: &Scenario, opts: &RunOpts) -> RunReport {
             // an injected unwind fires at a seam-event index, and event numbering
             // differs between build variants (hash-key / logger events): its own
             // outcome is not comparable across builds and is left out
-            if !matches!(sc.clients[ci].ops[oi].strip().1, Op::Aborted { .. }) {
+            if !matches!(sc.clients[ci].ops[oi].strip().1, Op::Aborted { .. } | Op::AbortedRng { .. }) {
                 results_digest = mix(mix(mix(results_digest, ci as u64), oi as u64), outcome_digest(&r.outcome));
             }
             let op = &sc.clients[ci].ops[oi];
